@@ -83,7 +83,8 @@ IsLiteralCase(ts) ==
         \/ us = 0 /\ ts = <<Lit(ds, s, 0), Op("+"), Num(P(1))>>
         \/ us = 0 /\ ts = <<Op("-"), Lit(ds, s, 0)>>
         \/ us = 0 /\ ts = <<Num(P(3)), Op("*"), LP, Lit(ds, s, 0), Op(">>"), Num(P(1)), RP>>
-  \/ \E ch \in {32, 48, 65, 97, 126, 10, 13, 9, 92, 39, 0} :
+  \* (36 59 34 35 40 41 44 47 42 58 46: characters that are tokens of the language themselves: $ ; " # ( ) , / * : .)
+  \/ \E ch \in {32, 48, 65, 97, 126, 10, 13, 9, 92, 39, 0, 36, 59, 34, 35, 40, 41, 44, 47, 42, 58, 46} :
         ts = <<[t |-> "num", base |-> 256, ds |-> <<ch>>, style |-> "chr", us |-> 0]>>
 
 Tier == IF MaxOps >= 4 THEN "thorough" ELSE "quick"
